@@ -51,20 +51,35 @@ Lemma is_done_false st : is_done st = false <-> s_rest st <> [].
 Proof. unfold is_done. destruct (s_rest st); split; congruence. Qed.
 
 (** ** The step relation: [st'] is reached from [st] by [consume_rune] (only where the input is
-    not exhausted) and [errorf]; [nsteps k] counts the consumed runes *)
-Inductive nsteps : nat -> state -> state -> Prop :=
-| nsteps_refl st : nsteps 0 st st
-| nsteps_consume k st st' : is_done st = false -> nsteps k (consume_rune st) st' -> nsteps (S k) st st'
-| nsteps_errorf k st st' : nsteps k (errorf st) st' -> nsteps k st st'.
+    not exhausted) and [errorf]; [nsteps d k] counts the consumed runes.  As long as no error has
+    been reported ([d = false]) only validly encoded runes are consumed; [errorf] switches to
+    [d = true], where anything may be consumed. *)
+Inductive nsteps : bool -> nat -> state -> state -> Prop :=
+| nsteps_refl d st : nsteps d 0 st st
+| nsteps_consume d k st st' : is_done st = false -> next_invalid st = false ->
+    nsteps d k (consume_rune st) st' -> nsteps d (S k) st st'
+| nsteps_consume_any k st st' : is_done st = false ->
+    nsteps true k (consume_rune st) st' -> nsteps true (S k) st st'
+| nsteps_errorf d k st st' : nsteps true k (errorf st) st' -> nsteps d k st st'.
 
 (** at least [m] runes consumed *)
-Definition steps (m : nat) (st st' : state) : Prop := exists k, (m <= k)%nat /\ nsteps k st st'.
+Definition steps (m : nat) (st st' : state) : Prop := exists k, (m <= k)%nat /\ nsteps false k st st'.
 
-Lemma nsteps_trans a b st st1 st2 : nsteps a st st1 -> nsteps b st1 st2 -> nsteps (a + b) st st2.
+Lemma nsteps_dirty d k st st' : nsteps d k st st' -> nsteps true k st st'.
 Proof.
-  intros H1 H2. induction H1 as [st|k st st' Hd H IH|k st st' H IH]; cbn [Nat.add].
-  - exact H2.
+  induction 1 as [d st|d k st st' Hd Hv H IH|k st st' Hd H IH|d k st st' H IH].
+  - constructor.
+  - apply nsteps_consume_any; auto.
+  - apply nsteps_consume_any; auto.
+  - apply nsteps_errorf; auto.
+Qed.
+
+Lemma nsteps_trans d a b st st1 st2 : nsteps d a st st1 -> nsteps false b st1 st2 -> nsteps d (a + b) st st2.
+Proof.
+  intros H1 H2. induction H1 as [d st|d k st st' Hd Hv H IH|k st st' Hd H IH|d k st st' H IH]; cbn [Nat.add].
+  - destruct d; [apply nsteps_dirty in H2|]; exact H2.
   - apply nsteps_consume; auto.
+  - apply nsteps_consume_any; auto.
   - apply nsteps_errorf; auto.
 Qed.
 
@@ -80,11 +95,29 @@ Qed.
 Lemma steps_weaken a b st st' : steps a st st' -> (b <= a)%nat -> steps b st st'.
 Proof. intros (k & Hm & H) Hle. exists k. split; [lia|exact H]. Qed.
 
-Lemma steps_consume st : is_done st = false -> steps 1 st (consume_rune st).
-Proof. intro Hd. exists 1%nat. split; [lia|]. apply nsteps_consume; [exact Hd|constructor]. Qed.
+(** consuming a validly encoded rune *)
+Lemma steps_consume st : is_done st = false -> next_invalid st = false -> steps 1 st (consume_rune st).
+Proof. intros Hd Hv. exists 1%nat. split; [lia|]. apply nsteps_consume; [exact Hd|exact Hv|constructor]. Qed.
 
 Lemma steps_errorf st : steps 0 st (errorf st).
 Proof. exists 0%nat. split; [lia|]. apply nsteps_errorf. constructor. Qed.
+
+(** reporting an error and consuming whatever is there *)
+Lemma steps_error_consume st : is_done st = false -> steps 1 st (consume_rune (errorf st)).
+Proof.
+  intro Hd. exists 1%nat. split; [lia|]. apply nsteps_errorf. apply nsteps_consume_any; [exact Hd|constructor].
+Qed.
+
+Lemma next_rune_valid st : next_rune st <> RuneError -> next_invalid st = false.
+Proof. intro H. unfold next_invalid. destruct (next_rune st =? RuneError) eqn:E; [lia|reflexivity]. Qed.
+
+(** every consumed rune leaves less input *)
+Lemma consume_length st : is_done st = false ->
+  (length (s_rest (consume_rune st)) + 1 <= length (s_rest st))%nat.
+Proof.
+  intro Hd. apply is_done_false in Hd. unfold consume_rune. cbn [s_rest]. rewrite skipn_length. unfold next_size.
+  pose proof (read_next_rune_size_le (s_rest st)). pose proof (read_next_rune_size_pos _ Hd). lia.
+Qed.
 
 (** anything preserved by the two primitive moves is preserved by [steps] *)
 Lemma steps_preserve (P : state -> Prop) :
@@ -92,18 +125,28 @@ Lemma steps_preserve (P : state -> Prop) :
   (forall st, P st -> P (errorf st)) ->
   forall m st st', steps m st st' -> P st -> P st'.
 Proof.
-  intros Hc He m st st' (k & _ & H). induction H as [st|k st st' Hd H IH|k st st' H IH]; intro HP; auto.
+  intros Hc He m st st' (k & _ & H). revert H. generalize false as d. intros d H.
+  induction H as [d st|d k st st' Hd Hv H IH|k st st' Hd H IH|d k st st' H IH]; intro HP.
+  - exact HP.
+  - apply IH. apply Hc; assumption.
+  - apply IH. apply Hc; assumption.
+  - apply IH. apply He; assumption.
 Qed.
 
 (** the bytes consumed: a suffix of the remaining input, offsets agree, errors are appended *)
-Lemma nsteps_extent k st st' : nsteps k st st' ->
+Lemma nsteps_extent d k st st' : nsteps d k st st' ->
   exists j : nat, (k <= j)%nat /\ (j <= length (s_rest st))%nat /\
     s_rest st' = skipn j (s_rest st) /\ s_off st' = s_off st + Z.of_nat j /\
     exists l, s_errs st' = s_errs st ++ l.
 Proof.
-  induction 1 as [st|k st st' Hd H IH|k st st' H IH].
-  - exists 0%nat. repeat split; try lia. exists []. now rewrite app_nil_r.
-  - destruct IH as (j & Hk & Hl & Hr & Ho & l & He).
+  assert (CONS : forall k st st', is_done st = false ->
+            (exists j : nat, (k <= j)%nat /\ (j <= length (s_rest (consume_rune st)))%nat /\
+               s_rest st' = skipn j (s_rest (consume_rune st)) /\ s_off st' = s_off (consume_rune st) + Z.of_nat j /\
+               exists l, s_errs st' = s_errs (consume_rune st) ++ l) ->
+            exists j : nat, (S k <= j)%nat /\ (j <= length (s_rest st))%nat /\
+               s_rest st' = skipn j (s_rest st) /\ s_off st' = s_off st + Z.of_nat j /\
+               exists l, s_errs st' = s_errs st ++ l).
+  { clear. intros k st st' Hd (j & Hk & Hl & Hr & Ho & l & He).
     apply is_done_false in Hd.
     pose proof (read_next_rune_size_le (s_rest st)) as Hle.
     pose proof (read_next_rune_size_pos _ Hd) as Hpos.
@@ -111,7 +154,11 @@ Proof.
     unfold next_size in *. rewrite skipn_length in Hl.
     exists (snd (read_next_rune (s_rest st)) + j)%nat. repeat split; try lia.
     + rewrite Hr, skipn_skipn. reflexivity.
-    + exists l. exact He.
+    + exists l. exact He. }
+  induction 1 as [d st|d k st st' Hd Hv H IH|k st st' Hd H IH|d k st st' H IH].
+  - exists 0%nat. repeat split; try lia. exists []. now rewrite app_nil_r.
+  - apply CONS; assumption.
+  - apply CONS; assumption.
   - destruct IH as (j & Hk & Hl & Hr & Ho & l & He).
     unfold errorf in Hl, Hr, Ho, He. cbn [s_rest s_off s_errs] in Hl, Hr, Ho, He.
     exists j. repeat split; try lia; try assumption.
@@ -123,7 +170,7 @@ Lemma steps_extent m st st' : steps m st st' ->
     s_rest st' = skipn j (s_rest st) /\ s_off st' = s_off st + Z.of_nat j /\
     exists l, s_errs st' = s_errs st ++ l.
 Proof.
-  intros (k & Hm & H). destruct (nsteps_extent _ _ _ H) as (j & Hk & R). exists j. split; [lia|exact R].
+  intros (k & Hm & H). destruct (nsteps_extent _ _ _ _ H) as (j & Hk & R). exists j. split; [lia|exact R].
 Qed.
 
 Lemma steps_off m st st' : steps m st st' -> s_off st + Z.of_nat m <= s_off st'.
@@ -141,54 +188,67 @@ Lemma steps_then a b c st st1 st2 :
 Proof. intros H1 H2 Hc. eapply steps_weaken; [eapply steps_trans; eassumption|exact Hc]. Qed.
 
 (** prove [is_done st = false] from boolean facts about [next_rune st] in the context *)
-Ltac not_done := apply next_rune_not_done; lia.
+Ltac not_done := first [apply next_rune_not_done; lia | apply next_rune_valid; unfold RuneError; lia].
 
 Lemma steps_consume_if (b : bool) st :
-  (b = true -> is_done st = false) -> steps 0 st (if b then consume_rune st else st).
+  (b = true -> is_done st = false) -> (b = true -> next_invalid st = false) ->
+  steps 0 st (if b then consume_rune st else st).
 Proof.
-  intro H. destruct b; [|apply steps_refl].
+  intros H Hv. destruct b; [|apply steps_refl].
   eapply steps_weaken; [apply steps_consume; auto|lia].
 Qed.
 
 Lemma steps_errorf_if (b : bool) st : steps 0 st (if b then errorf st else st).
 Proof. destruct b; [apply steps_errorf|apply steps_refl]. Qed.
 
-(** ** [consume_while] *)
-Lemma consume_while_ok p : forall fuel st, (length (s_rest st) <= fuel)%nat ->
+(** ** [consume_while] (for predicates that hold of no U+FFFD: the runes consumed are valid) *)
+Definition valid_pred (p : rune -> bool) : Prop := forall r, p r = true -> r <> RuneError.
+
+Lemma is_digit_valid : valid_pred is_digit.
+Proof. intros r H. unfold is_digit in H. unfold RuneError. lia. Qed.
+Lemma is_name_continue_valid : valid_pred is_name_continue.
+Proof. intros r H. unfold is_name_continue in H. unfold RuneError. lia. Qed.
+
+Lemma consume_while_ok p : valid_pred p -> forall fuel st, (length (s_rest st) <= fuel)%nat ->
   exists st', consume_while fuel p st = Some st' /\ steps 0 st st'.
 Proof.
-  induction fuel as [|f IH]; intros st Hf.
+  intro Hp. induction fuel as [|f IH]; intros st Hf.
   - assert (Hd : is_done st = true) by (unfold is_done; destruct (s_rest st); [reflexivity|simpl in Hf; lia]).
     exists st. split; [|apply steps_refl]. cbn [consume_while]. rewrite Hd. reflexivity.
   - cbn [consume_while]. destruct (negb (is_done st) && p (next_rune st)) eqn:E.
     + assert (Hd : is_done st = false) by (destruct (is_done st); [discriminate|reflexivity]).
-      pose proof (steps_consume st Hd) as Hs. pose proof (steps_length _ _ _ Hs) as Hl.
+      assert (Hv : next_invalid st = false).
+      { apply next_rune_valid, Hp. rewrite Hd in E. exact E. }
+      pose proof (steps_consume st Hd Hv) as Hs. pose proof (steps_length _ _ _ Hs) as Hl.
       destruct (IH (consume_rune st)) as (st' & H1 & H2); [lia|].
       exists st'. split; [exact H1|]. eapply steps_then; [exact Hs|exact H2|lia].
     + exists st. split; [reflexivity|apply steps_refl].
 Qed.
 
-Lemma consume_while_self p st :
+Lemma consume_while_self p st : valid_pred p ->
   exists st', consume_while (fuel_of st) p st = Some st' /\ steps 0 st st'.
-Proof. apply consume_while_ok. unfold fuel_of. lia. Qed.
+Proof. intro Hp. apply consume_while_ok; [exact Hp|]. unfold fuel_of. lia. Qed.
 
-Lemma consume_while_steps p : forall fuel st st', consume_while fuel p st = Some st' -> steps 0 st st'.
+Lemma consume_while_steps p : valid_pred p ->
+  forall fuel st st', consume_while fuel p st = Some st' -> steps 0 st st'.
 Proof.
-  induction fuel as [|f IH]; intros st st' H; cbn [consume_while] in H;
+  intro Hp. induction fuel as [|f IH]; intros st st' H; cbn [consume_while] in H;
     destruct (negb (is_done st) && p (next_rune st)) eqn:E; try discriminate.
   - inversion H; subst. apply steps_refl.
   - assert (Hd : is_done st = false) by (destruct (is_done st); [discriminate|reflexivity]).
-    eapply steps_then; [apply steps_consume; exact Hd|eapply IH; exact H|lia].
+    assert (Hv : next_invalid st = false).
+    { apply next_rune_valid, Hp. rewrite Hd in E. exact E. }
+    eapply steps_then; [apply steps_consume; [exact Hd|exact Hv]|eapply IH; exact H|lia].
   - inversion H; subst. apply steps_refl.
 Qed.
 
 (** when the loop condition holds at the start, at least one rune is consumed *)
-Lemma consume_while_first p fuel st st' : consume_while fuel p st = Some st' ->
+Lemma consume_while_first p fuel st st' : valid_pred p -> consume_while fuel p st = Some st' ->
   is_done st = false -> p (next_rune st) = true -> steps 1 st st'.
 Proof.
-  intros H Hd Hp. destruct fuel as [|f]; cbn [consume_while] in H; rewrite Hd, Hp in H; cbn [negb andb] in H.
+  intros Hvp H Hd Hp. destruct fuel as [|f]; cbn [consume_while] in H; rewrite Hd, Hp in H; cbn [negb andb] in H.
   - discriminate.
-  - eapply steps_then; [apply steps_consume; exact Hd|eapply consume_while_steps; exact H|lia].
+  - eapply steps_then; [apply steps_consume; [exact Hd|apply next_rune_valid, Hvp, Hp]|eapply consume_while_steps; [exact Hvp|exact H]|lia].
 Qed.
 
 (** what holds where the loop stops *)
@@ -209,10 +269,10 @@ Lemma consume_name_ok st : exists b st', consume_name st = Some (b, st') /\
   steps (flag_steps b) st st' /\ (b = false -> st' = st).
 Proof.
   unfold consume_name. destruct (is_name_start (next_rune st)) eqn:E.
-  - destruct (consume_while_self is_name_continue (consume_rune st)) as (st2 & H1 & H2).
+  - destruct (consume_while_self is_name_continue (consume_rune st) is_name_continue_valid) as (st2 & H1 & H2).
     rewrite H1. exists true, st2. split; [reflexivity|]. split; [|discriminate].
-    eapply steps_then; [apply steps_consume|exact H2|simpl; lia].
-    unfold is_name_start in E. not_done.
+    unfold is_name_start in E.
+    eapply steps_then; [apply steps_consume; not_done|exact H2|simpl; lia].
   - exists false, st. split; [reflexivity|]. split; [apply steps_refl|reflexivity].
 Qed.
 
@@ -223,7 +283,8 @@ Proof.
   destruct ((next_rune st =? 45) && is_digit (peek st)) eqn:E.
   - (* a minus sign followed by a digit *)
     assert (Hd : is_done st = false) by not_done.
-    pose proof (steps_consume st Hd) as Hs. set (st1 := consume_rune st) in *.
+    assert (Hs : steps 1 st (consume_rune st)) by (apply steps_consume; not_done).
+    set (st1 := consume_rune st) in *.
     destruct (next_rune st1 =? 48) eqn:E0.
     + exists true, (consume_rune st1). split; [reflexivity|]. split; [|discriminate].
       eapply steps_then; [exact Hs|apply steps_consume; not_done|simpl; lia].
@@ -239,18 +300,18 @@ Proof.
         -- rewrite Hp in E. destruct (is_digit (next_rune st1)); [discriminate E1|rewrite andb_false_r in E; discriminate E].
         -- unfold peek in E. unfold st1, consume_rune in Hp. cbn [s_rest] in Hp. rewrite Hp in E.
            unfold is_digit, decode_rune, RuneError in E. cbn [fst] in E. lia.
-      * destruct (consume_while_self is_digit st1) as (st2 & H1 & H2). rewrite H1.
+      * destruct (consume_while_self is_digit st1 is_digit_valid) as (st2 & H1 & H2). rewrite H1.
         exists true, st2. split; [reflexivity|]. split; [|discriminate].
         eapply steps_then; [exact Hs|exact H2|simpl; lia].
   - destruct (next_rune st =? 48) eqn:E0.
     + exists true, (consume_rune st). split; [reflexivity|]. split; [|discriminate].
-      apply steps_consume. not_done.
+      apply steps_consume; not_done.
     + destruct (negb (is_digit (next_rune st))) eqn:E1.
       * exists false, st. split; [reflexivity|]. split; [apply steps_refl|reflexivity].
-      * destruct (consume_while_self is_digit st) as (st2 & H1 & H2). rewrite H1.
+      * destruct (consume_while_self is_digit st is_digit_valid) as (st2 & H1 & H2). rewrite H1.
         exists true, st2. split; [reflexivity|]. split; [|discriminate].
         assert (Hdig : is_digit (next_rune st) = true) by (destruct (is_digit (next_rune st)); [reflexivity|discriminate]).
-        eapply consume_while_first; [exact H1| |exact Hdig].
+        eapply consume_while_first; [exact is_digit_valid|exact H1| |exact Hdig].
         unfold is_digit in Hdig. not_done.
 Qed.
 
@@ -260,7 +321,7 @@ Proof.
   unfold consume_fractional_part.
   destruct (negb (next_rune st =? 46) || negb (is_digit (peek st))) eqn:E.
   - exists false, st. split; [reflexivity|]. split; [apply steps_refl|reflexivity].
-  - destruct (consume_while_self is_digit (consume_rune st)) as (st2 & H1 & H2). rewrite H1.
+  - destruct (consume_while_self is_digit (consume_rune st) is_digit_valid) as (st2 & H1 & H2). rewrite H1.
     exists true, st2. split; [reflexivity|]. split; [|discriminate].
     eapply steps_then; [apply steps_consume; not_done|exact H2|simpl; lia].
 Qed.
@@ -274,7 +335,7 @@ Proof.
   - set (st1 := consume_rune st).
     set (st2 := if (next_rune st1 =? 43) || (next_rune st1 =? 45) then consume_rune st1 else st1).
     set (st3 := if negb (is_digit (next_rune st2)) then errorf st2 else st2).
-    destruct (consume_while_self is_digit st3) as (st4 & H1 & H2). rewrite H1.
+    destruct (consume_while_self is_digit st3 is_digit_valid) as (st4 & H1 & H2). rewrite H1.
     exists true, st4. split; [reflexivity|]. split; [|discriminate].
     assert (S1 : steps 1 st st1) by (apply steps_consume; not_done).
     assert (S2 : steps 0 st1 st2) by (apply steps_consume_if; intro; not_done).
@@ -297,17 +358,24 @@ Lemma peek_next st c : peek st = c -> c <> RuneError -> next_rune (consume_rune 
 Proof. intros H Hc. destruct (peek_spec st) as [[_ Hp]|[_ Hp]]; congruence. Qed.
 
 (** ** strings *)
+Lemma hex_rune_known r : (hex_rune_value r <? 0) = false -> r <> -1 /\ r <> RuneError.
+Proof.
+  unfold hex_rune_value, RuneError.
+  destruct ((48 <=? r) && (r <=? 57)) eqn:E1; [lia|].
+  destruct ((97 <=? r) && (r <=? 102)) eqn:E2; [lia|].
+  destruct ((65 <=? r) && (r <=? 70)) eqn:E3; lia.
+Qed.
+
 Lemma hex4_steps : forall n st code, steps 0 st (fst (hex4 n st code)).
 Proof.
   induction n as [|n IH]; intros st code; cbn [hex4].
   - apply steps_refl.
   - destruct (hex_rune_value (next_rune st) <? 0) eqn:E; cbn [fst].
     + apply steps_errorf.
-    + eapply steps_then; [apply steps_consume| apply IH |lia].
-      unfold hex_rune_value in E.
-      destruct ((48 <=? next_rune st) && (next_rune st <=? 57)) eqn:E1; [not_done|].
-      destruct ((97 <=? next_rune st) && (next_rune st <=? 102)) eqn:E2; [not_done|].
-      destruct ((65 <=? next_rune st) && (next_rune st <=? 70)) eqn:E3; [not_done|]. lia.
+    + apply hex_rune_known in E as [E1 E2].
+      eapply steps_then; [apply steps_consume| apply IH |lia].
+      * apply next_rune_not_done. exact E1.
+      * apply next_rune_valid. exact E2.
 Qed.
 
 Lemma escaped_step_steps st value : is_done st = false -> steps 1 st (fst (escaped_step st value)).
@@ -315,11 +383,11 @@ Proof.
   intro Hd. unfold escaped_step.
   repeat match goal with
          | |- context [if ?b then _ else _] => destruct b eqn:?
-         end; cbn [fst]; try (apply steps_consume; exact Hd).
+         end; cbn [fst]; try (apply steps_consume; [exact Hd|not_done]).
   - destruct (hex4 4 (consume_rune st) 0) as [st1 code] eqn:Eh. cbn [fst].
-    eapply steps_then; [apply steps_consume; exact Hd| |lia].
+    eapply steps_then; [apply steps_consume; [exact Hd|not_done]| |lia].
     pose proof (hex4_steps 4 (consume_rune st) 0) as H. rewrite Eh in H. exact H.
-  - eapply steps_then; [apply steps_errorf|apply steps_consume|lia]. exact Hd.
+  - apply steps_error_consume. exact Hd.
 Qed.
 
 Lemma string_loop_ok is_block : forall fuel st value esc, (length (s_rest st) <= fuel)%nat ->
@@ -330,7 +398,7 @@ Proof.
     cbn [string_loop]. rewrite Hd. exists st, value, false. split; [reflexivity|apply steps_refl].
   - cbn [string_loop]. destruct (is_done st) eqn:Hd.
     { exists st, value, false. split; [reflexivity|apply steps_refl]. }
-    pose proof (steps_consume st Hd) as S1. pose proof (steps_length _ _ _ S1) as L1.
+    pose proof (steps_consume st Hd) as S1.
     (* every recursive call is on a state reached by at least one consumed rune *)
     assert (REC : forall st1 v e, steps 1 st st1 ->
               exists st' value' t, string_loop f is_block st1 v e = Some (st', value', t) /\ steps 0 st st').
@@ -344,13 +412,13 @@ Proof.
     { destruct (negb is_block).
       - exists st, value, false. split; [reflexivity|apply steps_refl].
       - destruct ((next_rune st =? 13) && (next_rune (consume_rune st) =? 10)) eqn:Ecrlf.
-        + apply REC. eapply steps_then; [exact S1|apply steps_consume; not_done|lia].
-        + apply REC. exact S1. }
+        + apply REC. eapply steps_then; [apply S1; not_done|apply steps_consume; not_done|lia].
+        + apply REC. apply S1; not_done. }
     destruct (next_rune st =? 92) eqn:Ebs.
-    { destruct (negb is_block); [apply REC; exact S1|].
-      destruct (negb (next_rune (consume_rune st) =? 34)) eqn:Eq; [apply REC; exact S1|].
+    { destruct (negb is_block); [apply REC; apply S1; not_done|].
+      destruct (negb (next_rune (consume_rune st) =? 34)) eqn:Eq; [apply REC; apply S1; not_done|].
       assert (S2 : steps 2 st (consume_rune (consume_rune st))).
-      { eapply steps_then; [exact S1|apply steps_consume; not_done|lia]. }
+      { eapply steps_then; [apply S1; not_done|apply steps_consume; not_done|lia]. }
       destruct ((next_rune (consume_rune (consume_rune st)) =? 34) && (peek (consume_rune (consume_rune st)) =? 34)) eqn:Eqq.
       - apply REC.
         assert (N3 : next_rune (consume_rune (consume_rune (consume_rune st))) = 34).
@@ -366,15 +434,15 @@ Proof.
           { apply peek_next; [lia|unfold RuneError; lia]. }
           exists (consume_rune (consume_rune (consume_rune st))), value, true. split; [reflexivity|].
           assert (S2 : steps 2 st (consume_rune (consume_rune st))).
-          { eapply steps_then; [exact S1|apply steps_consume; not_done|lia]. }
+          { eapply steps_then; [apply S1; not_done|apply steps_consume; not_done|lia]. }
           eapply steps_then; [exact S2|apply steps_consume; not_done|lia].
-        + apply REC. exact S1.
-      - exists (consume_rune st), value, true. split; [reflexivity|]. eapply steps_weaken; [exact S1|lia]. }
+        + apply REC. apply S1; not_done.
+      - exists (consume_rune st), value, true. split; [reflexivity|]. eapply steps_weaken; [apply S1; not_done|lia]. }
     assert (SE : steps 1 st (consume_rune (errorf st))).
-    { eapply steps_then; [apply steps_errorf|apply steps_consume|lia]. exact Hd. }
-    destruct (next_invalid st); [apply REC; exact SE|].
+    { apply steps_error_consume. exact Hd. }
+    destruct (next_invalid st) eqn:Ev; [apply REC; exact SE|].
     destruct (negb (is_source_character (next_rune st))); [apply REC; exact SE|].
-    apply REC. exact S1.
+    apply REC. apply S1. reflexivity.
 Qed.
 
 
@@ -442,10 +510,10 @@ Proof.
     + assert (Hd : is_done st = false) by (destruct (is_done st); [discriminate|reflexivity]).
       set (st1 := if next_invalid st then errorf st else if negb (is_source_character (next_rune st)) then errorf st else st).
       assert (S1 : steps 1 st (consume_rune st1)).
-      { unfold st1. destruct (next_invalid st); [|destruct (negb (is_source_character (next_rune st)))].
-        - eapply steps_then; [apply steps_errorf|apply steps_consume; exact Hd|lia].
-        - eapply steps_then; [apply steps_errorf|apply steps_consume; exact Hd|lia].
-        - apply steps_consume; exact Hd. }
+      { unfold st1. destruct (next_invalid st) eqn:Ev; [|destruct (negb (is_source_character (next_rune st)))].
+        - apply steps_error_consume; exact Hd.
+        - apply steps_error_consume; exact Hd.
+        - apply steps_consume; [exact Hd|exact Ev]. }
       pose proof (steps_length _ _ _ S1) as L1.
       destruct (IH (consume_rune st1)) as (st' & H1 & H2); [lia|].
       exists st'. split; [exact H1|]. eapply steps_then; [exact S1|exact H2|lia].
@@ -462,10 +530,10 @@ Proof.
   cbn [length consume_comment]. rewrite Hd, Hh. cbn [negb andb Z.eqb].
   set (st1 := if next_invalid st then errorf st else if negb (is_source_character 35) then errorf st else st).
   assert (S1 : steps 1 st (consume_rune st1)).
-  { unfold st1. destruct (next_invalid st); [|destruct (negb (is_source_character 35))].
-    - eapply steps_then; [apply steps_errorf|apply steps_consume; exact Hd|lia].
-    - eapply steps_then; [apply steps_errorf|apply steps_consume; exact Hd|lia].
-    - apply steps_consume; exact Hd. }
+  { unfold st1. destruct (next_invalid st) eqn:Ev; [|destruct (negb (is_source_character 35))].
+    - apply steps_error_consume; exact Hd.
+    - apply steps_error_consume; exact Hd.
+    - apply steps_consume; [exact Hd|exact Ev]. }
   pose proof (steps_length _ _ _ S1) as L1. rewrite Er in L1. cbn [length] in L1.
   destruct (consume_comment_ok (length t) (consume_rune st1)) as (st' & H1 & H2); [lia|].
   exists st'. split; [exact H1|]. eapply steps_then; [exact S1|exact H2|lia].
@@ -490,30 +558,30 @@ Proof.
   intro Hd. unfold scan_switch, scan_switch_post.
   pose proof (steps_consume st Hd) as S1.
   assert (SE : steps 1 st (consume_rune (errorf st))).
-  { eapply steps_then; [apply steps_errorf|apply steps_consume; exact Hd|lia]. }
+  { apply steps_error_consume; exact Hd. }
   assert (LE : (length (s_errs st) < length (s_errs (consume_rune (errorf st))))%nat).
   { rewrite consume_rune_errs, errorf_errs_length. lia. }
   destruct ((next_rune st =? 9) || (next_rune st =? 32)) eqn:E1.
-  { do 3 eexists. split; [reflexivity|]. split; [exact S1|discriminate]. }
+  { do 3 eexists. split; [reflexivity|]. split; [apply S1; not_done|discriminate]. }
   destruct (is_punctuator_rune (next_rune st)) eqn:E2.
-  { do 3 eexists. split; [reflexivity|]. split; [exact S1|discriminate]. }
+  { unfold is_punctuator_rune in E2. do 3 eexists. split; [reflexivity|]. split; [apply S1; not_done|discriminate]. }
   destruct (next_rune st =? 44) eqn:E3.
-  { do 3 eexists. split; [reflexivity|]. split; [exact S1|discriminate]. }
+  { do 3 eexists. split; [reflexivity|]. split; [apply S1; not_done|discriminate]. }
   destruct ((next_rune st =? 13) || (next_rune st =? 10)) eqn:E4.
   { destruct ((next_rune st =? 13) && (next_rune (consume_rune st) =? 10)) eqn:E5.
     - do 3 eexists. split; [reflexivity|]. split; [|discriminate].
-      eapply steps_then; [exact S1|apply steps_consume; not_done|lia].
-    - do 3 eexists. split; [reflexivity|]. split; [exact S1|discriminate]. }
+      eapply steps_then; [apply S1; not_done|apply steps_consume; not_done|lia].
+    - do 3 eexists. split; [reflexivity|]. split; [apply S1; not_done|discriminate]. }
   destruct (next_rune st =? 35) eqn:E5.
   { destruct (consume_comment_first st) as (st' & H1 & H2); [lia|]. rewrite H1.
     do 3 eexists. split; [reflexivity|]. split; [exact H2|discriminate]. }
   destruct (next_rune st =? 46) eqn:E6.
   { destruct (negb (next_rune (consume_rune st) =? 46)) eqn:E7.
     - do 3 eexists. split; [reflexivity|]. split.
-      + eapply steps_then; [exact S1|apply steps_errorf|lia].
+      + eapply steps_then; [apply S1; not_done|apply steps_errorf|lia].
       + intros _. rewrite errorf_errs_length, consume_rune_errs. lia.
     - assert (S2 : steps 2 st (consume_rune (consume_rune st))).
-      { eapply steps_then; [exact S1|apply steps_consume; not_done|lia]. }
+      { eapply steps_then; [apply S1; not_done|apply steps_consume; not_done|lia]. }
       destruct (negb (next_rune (consume_rune (consume_rune st)) =? 46)) eqn:E8.
       + do 3 eexists. split; [reflexivity|]. split.
         * eapply steps_then; [exact S2|apply steps_errorf|lia].
@@ -527,7 +595,7 @@ Proof.
   { do 3 eexists. split; [reflexivity|]. split; [exact SE|intros _; exact LE]. }
   destruct (next_rune st =? 65279) eqn:E9.
   { destruct (s_off st =? 0).
-    - do 3 eexists. split; [reflexivity|]. split; [exact S1|discriminate].
+    - do 3 eexists. split; [reflexivity|]. split; [apply S1; not_done|discriminate].
     - do 3 eexists. split; [reflexivity|]. split; [exact SE|intros _; exact LE]. }
   destruct (consume_integer_part_ok st) as (b1 & st1 & H1 & T1 & F1). rewrite H1.
   destruct b1.
@@ -731,13 +799,17 @@ Proof.
 Qed.
 
 (** nothing consumed and nothing reported: nothing happened *)
-Lemma nsteps_same k st st' : nsteps k st st' -> s_off st' = s_off st ->
+Lemma nsteps_same d k st st' : nsteps d k st st' -> s_off st' = s_off st ->
   length (s_errs st') = length (s_errs st) -> st' = st.
 Proof.
-  induction 1 as [st|k st st' Hd H IH|k st st' H IH]; intros Ho He; [reflexivity| |].
-  - exfalso. destruct (nsteps_extent _ _ _ H) as (j & _ & _ & _ & Hoff & _).
-    pose proof (steps_off _ _ _ (steps_consume st Hd)). lia.
-  - exfalso. destruct (nsteps_extent _ _ _ H) as (j & _ & _ & _ & _ & l & Hl).
+  induction 1 as [d st|d k st st' Hd Hv H IH|k st st' Hd H IH|d k st st' H IH]; intros Ho He; [reflexivity| | |].
+  - exfalso. destruct (nsteps_extent _ _ _ _ H) as (j & _ & _ & _ & Hoff & _).
+    pose proof (consume_length st Hd) as Hl. unfold consume_rune in Hoff. cbn [s_off] in Hoff.
+    apply is_done_false in Hd. pose proof (read_next_rune_size_pos _ Hd). unfold next_size in Hoff. lia.
+  - exfalso. destruct (nsteps_extent _ _ _ _ H) as (j & _ & _ & _ & Hoff & _).
+    unfold consume_rune in Hoff. cbn [s_off] in Hoff.
+    apply is_done_false in Hd. pose proof (read_next_rune_size_pos _ Hd). unfold next_size in Hoff. lia.
+  - exfalso. destruct (nsteps_extent _ _ _ _ H) as (j & _ & _ & _ & _ & l & Hl).
     rewrite Hl, app_length, errorf_errs_length in He. lia.
 Qed.
 
